@@ -507,8 +507,24 @@ def gen_shift_world(rng: random.Random, n_steps: int, dt: Optional[int] = None) 
         o, d = (c0, c1) if rng.random() < 0.5 else (c1, c0)
         requests.append({"id": f"r{k+1:03d}", "o": o, "d": d, "dep": dep, "pax": 1, "fleet": None})
     requests.sort(key=lambda r: (r["dep"], r["id"]))
-    return {"name": "shift", "dt": dt, "start": start, "end": t_end, "cancel": max(600, 4 * dt), "vehicles": vehicles,
-            "requests": requests, "stations": stations, "bases": bases, "schedules": sched, "focus": "shift"}
+    w = {"name": "shift", "dt": dt, "start": start, "end": t_end, "cancel": max(600, 4 * dt), "vehicles": vehicles,
+         "requests": requests, "stations": stations, "bases": bases, "schedules": sched, "focus": "shift"}
+    # drivers with a short break between shifts, nearly flat, next to a SLOW public plug and without a plug at home: they
+    # are still charging for the way home when the next shift begins
+    k3 = max(2, min(n_steps - 12, k1 + 1))
+    sched.append(("shortbreak", _hms(on_grid(k3 + 10)), _hms(on_grid(k3))))       # off for ten steps only
+    c3 = world.at(-1200, 700)
+    stations.append({"id": "s_slow", "lat": c3[0], "lon": c3[1], "plugs": [("LEVEL_1", 3, True)]})
+    for k in range(2):
+        vehicles.append({"id": f"hs{k+1}", "lat": c3[0] + 0.0004 * (k + 1), "lon": c3[1], "mech": "leaf_50", "soc": rng.choice([0.03, 0.04]),
+                         "schedule": "shortbreak", "home_base": "b1"})
+    if rng.random() < 0.4:
+        # everybody in one fleet, parked vehicles dispatchable (as in the shipped manhattan scenario)
+        w["fleets"] = {"fa": {"vehicles": [v["id"] for v in vehicles], "stations": [], "bases": []}}
+        for r in requests:
+            r["fleet"] = "fa"
+        w["dispatcher"] = {"valid_dispatch_states": ["idle", "repositioning", "reservebase", "chargingbase"]}
+    return w
 
 
 def gen_input_world(rng: random.Random, n_steps: int, dt: Optional[int] = None) -> Dict[str, Any]:
